@@ -23,7 +23,11 @@ type Mutant struct {
 	Old  string
 	New  string
 	Nth  int // 0: Old must be unique; k>0: replace the k-th occurrence
+	More []Edit // further unique replacements in the same file
 }
+
+// Edit is one additional textual replacement of a mutant.
+type Edit struct{ Old, New string }
 
 func mutantOverlay(repo, name string) (map[string][]byte, error) {
 	for _, m := range allMutants() {
@@ -57,6 +61,12 @@ func mutantOverlay(repo, name string) (map[string][]byte, error) {
 				from = idx + len(m.Old)
 			}
 			s = s[:idx] + m.New + s[idx+len(m.Old):]
+		}
+		for _, e := range m.More {
+			if strings.Count(s, e.Old) != 1 {
+				return nil, fmt.Errorf("mutant %s: extra context not unique in %s", name, m.File)
+			}
+			s = strings.Replace(s, e.Old, e.New, 1)
 		}
 		return map[string][]byte{p: []byte(s)}, nil
 	}
@@ -99,6 +109,14 @@ func runMutants(repo, verif, prop string) []mutantResult {
 			switch {
 			case strings.Contains(string(out), "MUTANT-SKIP"):
 				r.Outcome = "skipped"
+				for _, l := range strings.Split(string(out), "\n") {
+					if strings.Contains(l, "MUTANT-SKIP") {
+						if len(l) > 300 {
+							l = l[:300]
+						}
+						r.Findings = []string{l}
+					}
+				}
 			default:
 				for _, l := range strings.Split(string(out), "\n") {
 					if strings.HasPrefix(l, "FINDING ") {
@@ -282,6 +300,9 @@ func runSelftest(repo, verif, prop string) int {
 				missed++
 			}
 			first := ""
+			if out == "skipped" && len(r.Findings) > 0 {
+				first = r.Findings[0]
+			}
 			if len(fresh) > 0 {
 				first = fresh[0]
 				if len(first) > 160 {
